@@ -135,7 +135,7 @@ func (w *skelWriter) emit(s string) {
 
 func has(xs []string, s string) bool {
 	for _, x := range xs {
-		if x == s {
+		if x == s || x == "*" { // "*": every name is watched
 			return true
 		}
 	}
